@@ -94,6 +94,14 @@ def obligations(tier, seed):
                       reach=["end", "win_unalloc", "win_indef", "win_feb29_indef", "win_28h", "win_32h", "win_env_failure", "pty_ok"],
                       timeout=300 if tr == "quick" else 1500, mem_gb=4, **common))
 
+    obs.append(Ob("lto_to_time_epoch_edge", func="h_lto_to_time_epoch", tier="thorough",
+                  desc="vbi_pil_lto_to_time with start in 1969..1970 (64-bit time_t: all results representable): conversion correct, negative results returned; "
+                       "KNOWN_PDC_EPOCH_EDGE excludes the region the code refuses with EOVERFLOW although representable "
+                       "(seconds_east < 0 and start + seconds_east < 0; seconds_east > 0 and result < 0) - remove the define to see the counterexample",
+                  encodes=["vbi_pil_lto_to_time", "valid_pil_lto_to_time"] + ENC_COMMON,
+                  defines=_defs(1969, 1970, 57600, {"KNOWN_PDC_EPOCH_EDGE": 1}),
+                  bounds="PIL all 2^20; start every second of local years 1969..1970 (except start == -1); |seconds_east| <= 16 h",
+                  reach=["end", "epoch_refused_region", "negative_result_ok"], timeout=900, **common))
     obs.append(Ob("pil_window_mktime_failure_exit", func="h_pil_window_mktime_fails", grid=[{"TZMODE": 0}, {"TZMODE": 2}],
                   desc="valid_pil_validity_window (static) when the 1st or 2nd mktime fails: returns FALSE after the first failure, TZ restored; "
                        "the errno assertion (errno == mktime's EOVERFLOW) is disabled by KNOWN_PDC_SAVED_ERRNO_UNINIT: saved_errno is read uninitialised there",
